@@ -320,7 +320,7 @@ def checks(limit, escalate):
                 t0 = time.time()
                 rec = {"id": m["id"], "file": m["file"], "func": m["func"], "line": m["line"], "op": m["op"], "old": m["old"][:80], "new": m["new"][:80], "checks": {}}
                 caught = None
-                order = checks_for(m)
+                order = checks_for(m)[: int(os.environ.get("ASTMUT_MAXCHECKS", "9"))]
                 if escalate:
                     order = order + [c for c in ALL_CHECKS if c not in order and c != "C20"] + ["C20"]
                 for c in order:
